@@ -35,3 +35,31 @@ package lists
 //@   loop 6 step i == old(i) - 1 && vǂ7[old(i)] == old(vǂ7[len(vǂ7)-1-i]) && vǂ7[len(vǂ7)-1-old(i)] == old(vǂ7[i])
 //@   loop 6 step forall(j, 0, len(vǂ7), imp(j != old(i) && j != len(vǂ7)-1-old(i), vǂ7[j] == old(vǂ7[j])))
 //@   loop 6 decreases i + 1
+
+// ---- C38: match / !match ---------------------------------------------------------------------------------
+// The callback of cmdMatch: the element is tested as received against the joined parameters, it is
+// written (unchanged) exactly when the test result differs from the ! flag - so `match` and `!match`
+// with the same pattern write complementary subsequences of the input, in input order.
+//@ func cmdMatch$1 [C38]
+//@   check none
+//@   requires p != nil
+//@   at call bytes.Contains#* assert arg0 == old(b)
+//@   at call (lang/stdio.ArrayWriter).Write#* assert arg0 == old(b)
+//@   ensures called("bytes.Contains") && called("(lang/stdio.ArrayWriter).Write") == (matched != p.IsNot)
+
+// ---- C38: prepend / append ---------------------------------------------------------------------------------
+// What is marshalled is: (prepend) the parameters converted to the element type, in parameter order,
+// followed by the elements read, unchanged and in order; (append) the elements read followed by the
+// converted parameters. Nothing else is added or dropped.
+//@ func cmdPrepend [C38]
+//@   check none
+//@   requires p != nil
+//@   at call (lang/stdio.Io).ReadArrayWithType#* modifies nothing
+//@   at call (*Parameters).StringArray#* modifies nothing
+//@   loop 1 invariant array == old@pre1(array) && params == old@pre1(params) && len(new) == $idx + 1 && $idx + 1 <= len(params) && fresh(new)
+//@   loop 1 invariant forall(k, 0, len(new), new[k] == $cgt(any(params[k]), cachedDt))
+//@   loop 1 invariant forall(k, 0, len(array), array[k] == old@pre1(array[k]))
+//@   at call MarshalData#1 assert typeis(arg2, []any) && len(unbox(arg2, []any)) == len(params) + len(old@pre1(array))
+//@   at call MarshalData#1 assert forall(k, 0, len(params), unbox(arg2, []any)[k] == $cgt(any(params[k]), cachedDt))
+//@   at call MarshalData#1 assert forall(k, 0, len(old@pre1(array)), unbox(arg2, []any)[len(params) + k] == old@pre1(array[k]))
+//@   ensures imp(result == nil, called("MarshalData") && called("(lang/stdio.Io).Write"))
